@@ -512,7 +512,7 @@ theorem lineHead_err (E : Env) (P : Pats) (st : TState) (e : Err) (h : lineHead 
   unfold lineHead at h
   split at h
   · split at h
-    · rename_i e' he; injection h with h; subst h; exact handleEndProgs_err E P st _ he
+    · rename_i e' he; injection h with h; subst h; exact handleEndProgs_err E P _ _ he
     · cases h
   · split at h
     · split at h
@@ -536,7 +536,7 @@ theorem lineHead_spec (E : Env) (P : Pats) (st s : TState) (ts : List Tok5) (con
     · rename_i ts0 s0 h0
       injection h with h; injection h with h1 h; injection h with _ h; injection h with h2 h3
       subst h1
-      obtain ⟨a, b⟩ := handleEndProgs_adv E P st s0 ts0 hmax hle h0
+      obtain ⟨a, b⟩ := handleEndProgs_adv E P { st with continued := false } s0 ts0 hmax hle h0
       exact ⟨by rw [a.max, a.line]; exact hmax, fun _ _ => b⟩
   · split at h
     · split at h
@@ -576,7 +576,7 @@ theorem lineHead_eof (E : Env) (P : Pats) (st s : TState) (ts : List Tok5) (cont
       exfalso
       unfold handleEndProgs at h0
       split at h0
-      · rename_i hnil; simp [hnil] at hne
+      · rename_i hnil; simp at hnil; simp [hnil] at hne
       · simp [hpos, hempty] at h0
   · split at h
     · unfold nextStatement at h
